@@ -21,7 +21,10 @@ def load_claims():
         m = importlib.import_module(f"harness.props.{pid.lower()}")
         if not all(hasattr(m, a) for a in ("TECHNIQUE", "LEVEL_TEXT", "LEVEL_NOTE")):
             continue
-        claims[pid] = (m.TECHNIQUE, m.LEVEL_TEXT, m.LEVEL_NOTE, getattr(m, "DESIGN_REF", f"DESIGN.md section 5, {pid}"))
+        text = m.LEVEL_TEXT
+        if getattr(m, "PARTIAL", None):
+            text += " NOT PROVED / PARTIAL: " + "; ".join(m.PARTIAL)
+        claims[pid] = (m.TECHNIQUE, text, m.LEVEL_NOTE, getattr(m, "DESIGN_REF", f"DESIGN.md section 5 and 9.3, {pid}"))
     return claims
 
 
